@@ -209,6 +209,19 @@ Definition modelled_od_calls (f : odfn) : list odcall :=
   | FList => [OcEarlyReturn; OcExists; OcLister; OcEarlyReturn]
   | FSizes => [OcEarlyReturn; OcStat; OcLister; OcEarlyReturn]
   end.
+(* the directory backend's other methods, statement by statement: read_full = fs::read(path);
+   read_partial = File::open; seek(Start(off)); read_exact(len bytes); list = [Config: return
+   exists] WalkDir(<dirname>) keeping is_file entries whose name Id::parse_some accepts;
+   list_with_size likewise with the metadata length; remove = fs::remove_file (+ the optional
+   post-delete command).  Props.local_calls_as_modelled compares with the regenerated table. *)
+Definition modelled_lb_calls (f : lbfn) : list lbcall :=
+  match f with
+  | LReadFull => [LcFsRead]
+  | LReadPartial => [LcFileOpen; LcSeek; LcReadExact]
+  | LList => [LcReturn; LcExists; LcWalkDir; LcIsFile; LcReturn; LcParseSome]
+  | LSizes => [LcExists; LcReturn; LcMetadata; LcReturn; LcWalkDir; LcIsFile; LcReturn; LcParseSome; LcMetadata]
+  | LRemove => [LcRemoveFile; LcCommand]
+  end.
 (* layers that hand every request and every answer through unchanged (retry repeats a failed
    request, throttle delays, concurrent-limit queues, logging logs): taken as a fact about opendal *)
 Definition passthrough (l : odlayer) : bool := match l with LOther => false | _ => true end.
